@@ -93,11 +93,31 @@ def _write_set(tree, module, cls, method, seen, out, via):
                 _write_set(tree, m, c, node.attr, seen, out, via or method)
     # in-place stores through local aliases of self attributes (x = self.coords; x[...] = ...) are reported conservatively
     aliases = set()
+
+    def returned_attr(attr):
+        """self.<attr> is a stored attribute, or a property whose body returns self.<other> (then the result aliases <other>)"""
+        for m, c in chain:
+            pf = tree.function(m, f'{c}.{attr}')
+            if pf is not None and pf.is_property:
+                for n2 in ast.walk(pf.node):
+                    if isinstance(n2, ast.Return) and isinstance(n2.value, ast.Attribute) and isinstance(n2.value.value, ast.Name) and n2.value.value.id == 'self':
+                        return n2.value.attr
+                return None
+        return attr
     for node in ast.walk(fi.node):
         if isinstance(node, ast.Assign) and isinstance(node.value, ast.Attribute) and isinstance(node.value.value, ast.Name) and node.value.value.id == 'self':
             for t in node.targets:
                 if isinstance(t, ast.Name):
-                    aliases.add((t.id, node.value.attr))
+                    ra = returned_attr(node.value.attr)
+                    if ra is not None:
+                        aliases.add((t.id, ra))
+    for node in ast.walk(fi.node):
+        if isinstance(node, ast.Call):
+            for kw in node.keywords:
+                if kw.arg == 'out' and isinstance(kw.value, ast.Name):
+                    for nm, attr in aliases:
+                        if kw.value.id == nm:
+                            out.setdefault(attr, []).append(f'{home[1]}.{method}@{node.lineno} (out= through alias {nm})')
     for node in ast.walk(fi.node):
         tg = []
         if isinstance(node, ast.Assign):
@@ -126,6 +146,10 @@ def unit_frame(tier):
             _write_set(tree, 'gemdat.trajectory', 'Trajectory', meth, set(), out, None)
             extra = {k: v for k, v in out.items() if k not in ALLOWED_WRITES}
             goals.append((f'write-set({meth}) = {sorted(out)} within {{coords, coords_are_displacement}}', z3.BoolVal(not extra)))
+            # the representation may only be rewritten by the two mode switches, whose bodies are proved view-preserving (C01)
+            sites = [w for k, v in out.items() if k in ALLOWED_WRITES for w in v]
+            foreign = [w for w in sites if not (w.startswith('Trajectory.to_positions@') or w.startswith('Trajectory.to_displacements@'))]
+            goals.append((f'{meth}: coords rewritten only inside to_positions/to_displacements {foreign}', z3.BoolVal(not foreign)))
             if meth not in ('positions', 'displacements', '__getitem__', 'filter', 'split', 'to_volume', 'to_cache', '__repr__') and 'coords' in out:
                 pass
         ctx.use('AST frame analysis: attribute stores on self, transitively through self.method(), super().method() and property reads')
